@@ -267,6 +267,14 @@ def correspondence(ctx):
     for i in range(n_chain):
         cells = gen.rand_cells(rng, max_cells=20)
         ops = rand_ops(rng, cells, rng.randrange(1, 7))
+        if rng.random() < 0.2:
+            # slices with nested detail key sets, then remove_static_details (order of slices may flip)
+            metas = gen.nested_detail_metas(rng, rng.randrange(2, 5))
+            rows = gen.layout_regular(rng, n_periods=2, n_lags=2)
+            kind = rng.choice(["C", "U", "I"])
+            cells = [c for m in metas for c in gen.cells_from_layout(rng, rows, m, kind=kind)]
+            rng.shuffle(cells)
+            ops = [{"op": "removeStaticDetails"}] + rand_ops(rng, cells, rng.randrange(0, 3))
         st, t = call(Triangle, cells)
         wire_ops, err = [], None
         if st == "ok":
